@@ -9,7 +9,7 @@ generated code.
 """
 import re
 
-from .core import AnchorLost, hir_calls, res_name, short, walk
+from .core import AnchorLost, atom_of, hir_calls, res_name, short, walk
 from . import repo, orframe
 
 EXPLANATION = (
@@ -247,6 +247,8 @@ def call_execute_twins(F, R, dl):
     R.floor("Call/Execute instruction pairs", n, 270)
     opaque_to_cut(F, R)
     branch_intervals(F, R)
+    cut_scan_descends_into_every_transparent_construct(F, R)
+    local_cut_keeps_its_variable(F, R)
 
 
 def opaque_to_cut(F, R):
@@ -359,3 +361,58 @@ def branch_intervals(F, R):
          "has_as_subbranch accepts other.branch_num %s self.branch_num + self.delta, which is exactly where incr_by_delta puts the NEXT sibling arm: the last arm of a "
          "disjunction or if-then-else then counts as a sub-branch of the arm before it, the allocator drops put_unsafe_value for a variable first bound there, and the "
          "clause passes a dangling environment reference to its last call" % {"Lt": "<", "Le": "<=", "Gt": ">", "Ge": ">="}[u["op"]], F.where(hs))
+
+
+def cut_scan_descends_into_every_transparent_construct(F, R):
+    """A cut is local to the condition of an if-then-else (and to \\+): the compiler gives such a condition a barrier of its
+    own when it contains a cut, and finds that out with `contains_cut`. The scan has to look through exactly the control
+    constructs that are transparent to cut — ','/2, ';'/2 and '->'/2 — and stop at everything else (call/N, \\+, findall
+    are opaque). A scan that does not look into '->'/2 misses the cut in `( ( x -> ! ; y ) -> T ; E )`, which is then
+    compiled as a cut of the whole clause."""
+    c = [p for p in F.items if p.endswith("disjuncts::contains_cut")]
+    if len(c) != 1:
+        raise AnchorLost("disjuncts::contains_cut (%d)" % len(c))
+    body = F.hir(c[0])["body"]
+    descends = set()
+    finds = False
+    for m in walk(body):
+        if m["k"] != "Match":
+            continue
+        for arm in m["arms"]:
+            atoms = {atom_of(y) for y in walk(arm["pat"]) if atom_of(y)}
+            if "!" in atoms and any(x["k"] == "Ret" for x in walk(arm["body"])):
+                finds = True
+            if any(x["k"] == "MethodCall" and x["name"] in ("extend", "push", "push_back") for x in walk(arm["body"])):
+                descends |= atoms
+    R.ob("C07:cut-scan:looks-through-exactly-the-transparent-constructs", finds and descends == {",", ";", "->"},
+         "contains_cut descends into %s (finds `!`: %s); the constructs transparent to cut are ','/2, ';'/2 and '->'/2: a cut under one it does not descend into gets no local "
+         "barrier, one under a construct that is opaque would get a barrier it must not have" % (sorted(descends), finds), F.where(c[0]))
+
+
+def local_cut_keeps_its_variable(F, R):
+    """The cut variable of \\+ or of a condition is used by every explicit `!` inside the construct and once more by the
+    construct's own closing cut. Code generation must not hand the variable's frame slot back at a cut: the slot is then
+    given to the next permanent variable, and the later cut reads that variable's value as a choice-point index
+    (`e :- \\+ (!, (m(B) -> true ; true)).` aborted in the cut instruction). The arm of compile_seq for
+    QueryTerm::LocalCut does not release the variable."""
+    cs = [p for p in F.items if re.search(r"codegen::CodeGenerator<.*>::compile_seq$|codegen::<impl .*CodeGenerator.*>::compile_seq$|CodeGenerator::<.*>::compile_seq$", p)]
+    if len(cs) != 1:
+        cs = [p for p in F.items if p.endswith("::compile_seq") and "codegen" in p]
+    if len(cs) != 1:
+        raise AnchorLost("CodeGenerator::compile_seq (%d)" % len(cs))
+    body = F.hir(cs[0])["body"]
+    arms = []
+    for m in walk(body):
+        if m["k"] != "Match":
+            continue
+        for arm in m["arms"]:
+            if any(re.search(r"QueryTerm::LocalCut$", (y.get("res") or {}).get("def") or "") for y in walk(arm["pat"])):
+                arms.append(arm)
+    if len(arms) != 1:
+        raise AnchorLost("compile_seq: arm for QueryTerm::LocalCut (%d)" % len(arms))
+    frees = [x["ln"] for x in walk(arms[0]["body"]) if x["k"] == "MethodCall" and x["name"] in ("free_var", "free_perm_var", "push_free_perm")]
+    emits = any(x["k"] == "MethodCall" and x["name"] == "push_back" for x in walk(arms[0]["body"]))
+    R.ob("C07:local-cut:cut-variable-not-released-at-a-cut", emits and not frees,
+         "compile_seq releases the cut variable's slot right after emitting a local cut (line %s): an explicit cut inside \\+ or a condition shares that variable with the "
+         "construct's own later cut, which then reads whatever permanent variable took the slot" % frees, F.where(cs[0]))
+
